@@ -7,10 +7,10 @@ import (
 
 func init() {
 	props["C12"] = &propCheck{
-		lean: []string{"JSight.Props.C12"},
-		exes: []string{"jsight-model"},
-		run:  runC12,
-		rule: "generated inheritance graphs over user types (chains up to depth 4, several bases, bases shared between heirs, no diamonds) used from types, requests, responses, headers and query schemas, in sampled / all declaration orders, plus faulty variants (override, non-object base, undefined base); non-trivial = at least one allOf whose base itself inherits; distinct = distinct document",
+		lean:    []string{"JSight.Props.C12"},
+		exes:    []string{"jsight-model"},
+		run:     runC12,
+		rule:    "generated inheritance graphs over user types (chains up to depth 4, several bases, bases shared between heirs, no diamonds) used from types, requests, responses, headers and query schemas, in sampled / all declaration orders, plus faulty variants (override, non-object base, undefined base); non-trivial = at least one allOf whose base itself inherits; distinct = distinct document",
 		assume:  []string{"the AST -> content conversion is the schema library's (oracle); rules other than allOf are carried opaquely"},
 		trusted: []string{"the harness-side generator of inheritance graphs and the declarative expansion Spec.inherited (expandSpec)"},
 	}
